@@ -5,31 +5,47 @@
 From Koreo Require Export CorrLib Schema Schemas_gen.
 Local Open Scope list_scope.
 
+(* one spec of one kind, with everything observed of the real code on it *)
+Record gate_obs := { g_cls : string; g_compiles : nat; g_lookups : nat }.
+
+Inductive filled_obs :=
+| FNone                 (* not observed (the spec was rejected) *)
+| FSame                 (* the validator left the spec as it was *)
+| FDoc (j : json).      (* the spec after validation, defaults written in *)
+
 Inductive case :=
 (* koreo.schema.validate(kind, spec) observed: accepted?, the `rule` of the
    JsonSchemaValueException of the compiled validator ("" if accepted or not
-   observable), and the spec as the validator left it (defaults written in) *)
-| CValidate (k : kind) (spec : json) (accepted : bool) (rule : string) (filled : option json)
-(* prepare_K(spec) observed: class of what came back ("PermFail", "Retry",
-   "prepared", ...), number of celpy compiles and cache look-ups it made *)
-| CGate (k : kind) (spec : json) (cls : string) (compiles lookups : nat).
+   observable), the spec as the validator left it (defaults written in);
+   then what prepare_K(spec) and prepare_and_cache(K, prepare_K, spec) did:
+   class of what came back ("PermFail", "Retry", "prepared", "raised"),
+   number of celpy compiles and of cache look-ups made *)
+| CSpec (k : kind) (spec : json) (accepted : bool) (rule : string) (filled : filled_obs)
+        (gates : list gate_obs).
+
+Definition check_validate (k : kind) (spec : json) (accepted : bool) (rule : string)
+           (filled : filled_obs) : bool :=
+  match validate (schema_of k) spec with
+  | None =>
+      accepted &&
+      match filled with
+      | FDoc f => json_eqb (fill (schema_of k) spec) f
+      | FSame => json_eqb (fill (schema_of k) spec) spec
+      | FNone => true
+      end
+  | Some r => negb accepted && (String.eqb rule "" || String.eqb r rule)
+  end.
+
+Definition check_gate (k : kind) (spec : json) (g : gate_obs) : bool :=
+  match prepare_gate (schema_of k) spec with
+  | Rejected _ log =>
+      String.eqb (g_cls g) "PermFail" && Nat.eqb (g_compiles g) (List.length log) &&
+      Nat.eqb (g_lookups g) 0
+  | Proceeds _ => true
+  end.
 
 Definition check_case (c : case) : bool :=
   match c with
-  | CValidate k spec accepted rule filled =>
-      match validate (schema_of k) spec with
-      | None =>
-          accepted &&
-          match filled with
-          | Some f => json_eqb (fill (schema_of k) spec) f
-          | None => true
-          end
-      | Some r => negb accepted && (String.eqb rule "" || String.eqb r rule)
-      end
-  | CGate k spec cls compiles lookups =>
-      match prepare_gate (schema_of k) spec with
-      | Rejected _ log =>
-          String.eqb cls "PermFail" && Nat.eqb compiles (List.length log) && Nat.eqb lookups 0
-      | Proceeds _ => true
-      end
+  | CSpec k spec accepted rule filled gates =>
+      check_validate k spec accepted rule filled && forallb (check_gate k spec) gates
   end.
